@@ -177,6 +177,12 @@ def gen_formula(rng, groups=True, max_terms=4, resp="y", cat_comps=None, num_com
             eff = [e for e in eff if e not in fac]
             noint = bool(eff) and rng.random() < 0.35
             txt = "(" + ("0 + " if noint else "") + (":".join(eff) if eff else "1") + " | " + ":".join(fac) + ")"
+            if eff and len(fac) == 1 and rng.random() < 0.25:
+                # the same effect under two grouping factors, with a group intercept for only one of them
+                fac2 = rng.choice([v for v in ("g", "h", "f") if v not in fac and v not in eff])
+                txt = "(0 + " + ":".join(eff) + " | " + fac[0] + " + " + fac2 + ") + (1 | " + fac[0] + ")"
+                gterms.append({"e": eff, "g": [fac2], "noint": True})
+                noint = False
             if txt not in parts:
                 parts.append(txt)
                 gterms.append({"e": eff, "g": fac, "noint": noint})
